@@ -25,6 +25,7 @@ EXPLANATION = (
     "(R5) greedy / guessed-weights results are adopted only under the tests that tie them to the k under test; (R6) every option key "
     "written is read under the same spelling; (R7) constraint edges enter the trusted set only under a full-coverage test; (R8) the flow-safe paths imposed by the flow-safety option are computed with the strict excess-flow threshold.  "
     "(R9) the greedy option's coverage test counts path edges (max_occurrence body) and queued bound fixes reach the solver on every path of optimize().  "
+    " (R10) option interplay: the greedy shortcut is not taken when solution_weights_superset is given, flow-safe paths switch the other safety options off instead of raising, a trusted set built from a percentile contains no zero-flow edge and its population excludes ignored elements, flow-safe paths only when nothing is ignored (C10.R8). "
     "NOT decided: that fixing safe sequences / pruning edges preserves the optimum (C06), equality of optima."
 )
 DECIDED = ["flag <-> constraint pairing and consumer mapping", "flag producers run before consumers", "bound route == constraint route",
